@@ -320,11 +320,32 @@ def loadViaAdjacency (g : IGraph) (geoW : Option (Option (List Rat))) : Except E
   let net ← assignWeights net (g.vw.map some)       -- if "node_weight_nsi" in attribute names
   pure { net with graph := g.edges, eattr := g.ea, gvw := g.vw }  -- net.graph = graph
 
-/-- `GeoNetwork.set_node_weight_type` (geo_network.py:90-118): 1 = "surface",
-2 = "irrigation", anything else = unit weights -/
+def pow2 (k : Int) : Rat :=
+  if k ≥ 0 then ((2 ^ k.toNat : Nat) : Rat) else 1 / ((2 ^ (-k).toNat : Nat) : Rat)
+
+/-- IEEE-754 single precision (normal range): the `float32` nearest to a rational,
+ties to even.  `grid.cos_lat()` is a `float32` array and `np.square` of it is the
+correctly rounded product in `float32`. -/
+def roundF32 (q : Rat) : Rat :=
+  if q == 0 then 0 else
+    let a : Rat := if q < 0 then -q else q
+    let e0 : Int := (Nat.log2 a.num.natAbs : Int) - (Nat.log2 a.den : Int)
+    let e : Int := if a < pow2 e0 then e0 - 1 else e0        -- 2^e ≤ a < 2^(e+1)
+    let s : Int := 23 - e
+    let x : Rat := a * pow2 s                                -- 2^23 ≤ x < 2^24
+    let f : Int := x.floor
+    let r : Rat := x - (f : Rat)
+    let m : Int := if r < 1 / 2 then f else if r > 1 / 2 then f + 1
+                   else if f % 2 == 0 then f else f + 1
+    let v : Rat := (m : Rat) / pow2 s
+    if q < 0 then -v else v
+
+/-- `GeoNetwork.set_node_weight_type` (geo_network.py:90-118): 1 = "surface"
+(`cos_lat`, a `float32` array handed over as exact rationals), 2 = "irrigation"
+(`np.square(cos_lat)`, rounded to `float32`), anything else = unit weights -/
 def geoWeights (cosLat : List Rat) (wtype : Nat) : Option (List Rat) :=
   if wtype == 1 then some cosLat
-  else if wtype == 2 then some (cosLat.map fun c => c * c)
+  else if wtype == 2 then some (cosLat.map fun c => roundF32 (c * c))
   else none
 
 /-- `GeoNetwork.__init__` -/
